@@ -290,7 +290,11 @@ func (c *FailoverController) ForceFailover(reason string) error {
 	c.logger.Warn("Forcing failover",
 		zap.String("reason", reason),
 	)
-	return c.initiateFailover(reason)
+	if err := c.initiateFailover(reason); err != nil {
+		return err
+	}
+	c.executeFailover(reason)
+	return nil
 }
 
 // ForceFailback forces an immediate failback (for manual intervention).
@@ -408,9 +412,15 @@ func (c *FailoverController) initiateFailover(reason string) error {
 	if c.currentRole == RoleActive {
 		return fmt.Errorf("already active, cannot failover")
 	}
+	if c.state == FailoverStateInProgress {
+		return fmt.Errorf("failover already in progress")
+	}
 
-	c.state = FailoverStateInProgress
-	atomic.AddUint64(&c.failoversInitiated, 1)
+	// Supersede a scheduled failover; executeFailover takes it from pending.
+	if c.failoverTimer != nil {
+		c.failoverTimer.Stop()
+	}
+	c.state = FailoverStatePending
 
 	c.notifyHandlers(FailoverEvent{
 		Type:         FailoverEventInitiated,
@@ -428,7 +438,8 @@ func (c *FailoverController) initiateFailover(reason string) error {
 func (c *FailoverController) executeFailover(reason string) {
 	c.mu.Lock()
 
-	if c.state != FailoverStatePending && c.state != FailoverStateInProgress {
+	// Only one caller (timer or ForceFailover) gets past this point.
+	if c.state != FailoverStatePending {
 		c.mu.Unlock()
 		return
 	}
